@@ -122,6 +122,11 @@ def _fix_variable_names(
 
         replacements.append((start, end, substitute))
 
+    # Renaming only some of the references would break the code, so if any of them is on a line
+    # with a `# pyrefact: ignore` comment, nothing is renamed.
+    if any(core.has_ignore_comment(source, core.Range(start, end)) for start, end, _ in replacements):
+        return source
+
     for start, end, substitute in sorted(set(replacements), reverse=True):
         logger.debug("Replacing {old} with {new}", old=source[start:end], new=substitute)
         source = source[:start] + substitute + source[end:]
@@ -1057,7 +1062,12 @@ def remove_duplicate_functions(source: str, preserve: Collection[str]) -> str:
             node_renamings[node].add(substitute)
 
     if node_renamings:
-        source = _fix_variable_names(source, node_renamings, preserve)
+        renamed_source = _fix_variable_names(source, node_renamings, preserve)
+        if renamed_source == source:
+            # The references could not be renamed, so the duplicates must be kept
+            return source
+
+        source = renamed_source
     if delete:
         source = processing.remove_nodes(source, delete, root)
 
